@@ -179,8 +179,7 @@ type ModShard struct {
 }
 
 func (m *ModShard) FindForKey(key interface{}) (int, error) {
-	h := hack.Abs(NumValue(key))
-	return int(h % int64(m.ShardNum)), nil
+	return int(absMod(NumValue(key), m.ShardNum)), nil
 }
 
 type NumRangeShard struct {
